@@ -1401,6 +1401,10 @@ impl ASN1Value {
                 ty: ASN1Type::ElsewhereDeclaredType(elsewhere),
                 ..
             })) => {
+                // a cyclic chain of type references defines no enumeral or named number
+                if supertypes.contains(&elsewhere.identifier) {
+                    return Ok(None);
+                }
                 supertypes.push(elsewhere.identifier.clone());
                 Self::link_enum_or_distinguished(tlds, elsewhere, identifier, supertypes)
             }
